@@ -15,7 +15,7 @@ ASSUMPTIONS = ['number fields are recognised by the reserved colours of line-num
 CHUNK = 6
 
 STARTS = [1, 1, 2, 9, 10, 99, 100, 999, 1000, 999999, 1000000, 2147483648]
-SPECS = ['', ':^4', ':>3', ':<5', ':>1', ':^7', ':>6']
+SPECS = ['', ':^4', ':>3', ':<5', ':>1', ':^7', ':>6', ':>4.2', ':^6.3', ':<5.1', ':_^7', ':*>5']
 DELIMS = ['⋮', '│', '┊', '‖', '|', ':']
 
 
